@@ -246,15 +246,29 @@ func (g *Gen) applyContractX(st *State, c *Contract, key string, names []string,
 		// a pure function is a function of its arguments (and of the heap cells they
 		// reach, passed as contents arrays for slices)
 		var flat []*Term
-		for i, a := range args {
-			var pt types.Type
-			if i < len(args) {
-				pt = a.Ty
-			}
+		heapDep := false
+		for _, a := range args {
 			if a.K == VAddr {
-				a = g.firstClass(a, "argument of pure function")
+				// address of a field / element: the function may read what it points to
+				pv := g.load(pre, a.A, typeAt(a.A.RootT, a.A.Path))
+				flat = append(flat, g.flattenArg(pre, pv, pv.Ty)...)
+				if a.A.Root == RObj {
+					flat = append(flat, a.A.Ref)
+				}
+				continue
 			}
-			flat = append(flat, g.flattenArg(pre, a, pt)...)
+			if a.K == VScalar && a.Ty != nil {
+				switch a.Ty.Underlying().(type) {
+				case *types.Pointer, *types.Interface, *types.Map, *types.Chan, *types.Signature:
+					heapDep = true
+				}
+			}
+			flat = append(flat, g.flattenArg(pre, a, a.Ty)...)
+		}
+		if heapDep {
+			// the result may depend on heap cells reachable from a reference: it is a
+			// function of the arguments only between heap writes
+			flat = append(flat, pre.Epoch)
 		}
 		res = buildVal(resTy, func(lf leaf) *Term { return App("vp_pure!"+short+lf.Path, lf.Sort, flat...) })
 		g.wfVal(st, res)
